@@ -113,7 +113,9 @@ struct Params
 {
     double delta, lambda, tol;
 };
-static const Params PARAMS[] = {{0.05, 2.0, 1e-4}, {0.2, 5.0, 1e-4}, {0.02, 1.5, 1e-8}};
+// settings 3 and 4 (projected space only): lambda close to 1, where the "wandered too far" limit of discreteGeodesic trips on curved
+// manifolds, often on the very step that would arrive (the exit bookkeeping of the traversal loop is what gets exercised)
+static const Params PARAMS[] = {{0.05, 2.0, 1e-4}, {0.2, 5.0, 1e-4}, {0.02, 1.5, 1e-8}, {0.05, 1.1, 1e-4}, {0.1, 1.02, 1e-6}};
 
 struct Setup
 {
@@ -311,9 +313,10 @@ static std::vector<vc::Point> sampleOnce(Setup &S, ob::StateSamplerPtr &smp, int
 
 static void runProjected(const std::string &manifold, const vf::Args &a, vf::Report &rep)
 {
-    int L = a.thorough() ? 12 : 8;
-    for (int pi = 0; pi < 3; ++pi)
+    int L0 = a.thorough() ? 12 : 8;
+    for (int pi = 0; pi < 5; ++pi)
     {
+        int L = pi >= 3 ? 2 * L0 + 2 : L0;  // the wander-limit settings need pairs at many separations
         Setup S(manifold, "projected", pi, L);
         std::string base = "\"kind\":\"projected\",\"manifold\":" + vf::jesc(manifold) + ",\"params\":" + std::to_string(pi);
         for (size_t i = 0; i < S.lat.size(); ++i)
@@ -324,7 +327,7 @@ static void runProjected(const std::string &manifold, const vf::Args &a, vf::Rep
                     rep.exhaustive = false;
                     return;
                 }
-                std::string rj = "{" + base + ",\"op\":\"geodesic\",\"i\":" + std::to_string(i) + ",\"j\":" + std::to_string(j) + "}";
+                std::string rj = "{" + base + ",\"op\":\"geodesic\",\"L\":" + std::to_string(L) + ",\"i\":" + std::to_string(i) + ",\"j\":" + std::to_string(j) + "}";
                 checkGeodesic(S, i, j, [&](const std::string &k, const std::string &w) { rep.fail(k, w, rj); }, &rep);
                 rep.evaluations++;
                 rep.transitions += 8;
@@ -364,9 +367,10 @@ static void runProjected(const std::string &manifold, const vf::Args &a, vf::Rep
                     dbe.explore(run);
                 }
         if (pi == 0 && !S.lat.empty())
-            rep.sample("{" + base + ",\"op\":\"geodesic\",\"i\":0,\"j\":" + std::to_string(S.lat.size() - 1) + "}");
+            rep.sample("{" + base + ",\"op\":\"geodesic\",\"L\":" + std::to_string(L) + ",\"i\":0,\"j\":" + std::to_string(S.lat.size() - 1) + "}");
     }
-    rep.bounds["lattice_points"] = std::to_string(L);
+    rep.bounds["lattice_points"] = std::to_string(L0);
+    rep.bounds["lattice_points_lambda_near_1"] = std::to_string(2 * L0 + 2);
 }
 
 // ---- stateful spaces: BFS over op sequences, state = chart list ----
@@ -653,7 +657,7 @@ int main(int argc, char **argv)
             runPlanner(m, a, rep);
         else
             runAtlas(m, k, a, rep);
-        rep.rule = "manifolds: unit sphere in R^3 and R^4, torus, plane, sphere-plane intersection (co-dimension 2); (delta, lambda, tolerance) in {(.05,2,1e-4),(.2,5,1e-4),(.02,1.5,1e-8)}. Projected "
+        rep.rule = "manifolds: unit sphere in R^3 and R^4, torus, plane, sphere-plane intersection (co-dimension 2); (delta, lambda, tolerance) in {(.05,2,1e-4),(.2,5,1e-4),(.02,1.5,1e-8)} and, for the projected space, {(.05,1.1,1e-4),(.1,1.02,1e-6)}. Projected "
                    "space: ALL ordered pairs of an on-manifold lattice through discreteGeodesic and interpolate at 7 parameters, all sampler modes under products / <= 2 deviations of oracle "
                    "answers. Atlas and tangent bundle (charts accumulate): BFS over ALL op sequences up to the depth over {sampleUniform variants, sampleUniformNear, interpolate, discreteGeodesic, "
                    "clear} with the chart list as canonical state, same oracles in every step; RRT / KPIECE1 on the sphere under all single deviations: every solution vertex on the manifold; "
@@ -679,7 +683,7 @@ int main(int argc, char **argv)
         }
         else if (op == "geodesic")
         {
-            Setup S(m, kind, (int)v["params"].i(), 12);
+            Setup S(m, kind, (int)v["params"].i(), v.has("L") ? (int)v["L"].i() : 12);  // the lattice stride depends on the requested size
             checkGeodesic(S, (int)v["i"].i() % S.lat.size(), (int)v["j"].i() % S.lat.size(), fail, nullptr);
         }
         else
